@@ -103,3 +103,21 @@ Fixpoint fs_run (fs : fsys) (p : N) (hs : list handle) (ops : list fop) : list (
   end.
 
 End WithHash.
+
+(** Damaged index files (C15): a valid store with parts removed or made undecodable. *)
+Inductive defect := DNoBucket | DNoS | DBadS | DNoI | DBadI (len : N) | DBadVAll | DBadVOne.
+
+Definition apply_defect (s : store) (d : defect) : store :=
+  match d with
+  | DNoBucket => Store false None None ∅
+  | DNoS => Store (st_bucket s) None (st_count s) (st_vals s)
+  | DBadS => Store (st_bucket s) (Some SchemaBad) (st_count s) (st_vals s)
+  | DNoI => Store (st_bucket s) (st_schema s) None (st_vals s)
+  | DBadI len => Store (st_bucket s) (st_schema s) (Some (CountBad len)) (st_vals s)
+  | DBadVAll => Store (st_bucket s) (st_schema s) (st_count s) ((λ _, BitmapBad) <$> st_vals s)
+  | DBadVOne => match map_to_list (st_vals s) with
+                | (k, _) :: _ => Store (st_bucket s) (st_schema s) (st_count s) (<[k := BitmapBad]> (st_vals s))
+                | [] => s
+                end
+  end.
+Definition damage_store (s : store) (ds : list defect) : store := fold_left apply_defect ds s.
